@@ -233,6 +233,22 @@ func Check(opts Options) int {
 				}
 			}
 		}
+		if o0.Cover && strings.Contains(name, "#cover.call.") {
+			// a call site reached on several paths: infeasible paths are expected, the guard fails only when
+			// no path reaches a state consistent with the callee's postconditions
+			nCover++
+			anyOK := false
+			for _, r := range a.instances {
+				if r.V.Status == "covered" || r.V.Status == "covered-unknown" {
+					anyOK = true
+				}
+			}
+			if !anyOK {
+				rp := writeReplay(replayDir, name, replayDoc(prop, worst, rr, "vacuity guard: no path through this call is consistent with the callee's postconditions"))
+				viols = append(viols, violation{Obligation: name, Reason: "vacuity guard " + worst.V.Status, Replay: rp, NoInput: true})
+			}
+			continue
+		}
 		if o0.Cover {
 			nCover++
 			if !allOK && strings.Contains(name, "#cover.return.") {
